@@ -276,3 +276,44 @@ func C19Full() {
 	srv.Terminate()
 	sym.Reach("full-done")
 }
+
+// zzGrowingDir: a directory whose answer to Services() is the list as of the moment the request
+// is received (one more service after every notification); the reply takes time to come back.
+type zzGrowingDir struct {
+	services.ServiceDirectoryProxy
+	lists [][]services.ServiceInfo
+	calls int32
+}
+
+func (d *zzGrowingDir) Services() ([]services.ServiceInfo, error) {
+	k := int(atomic.AddInt32(&d.calls, 1)) - 1
+	if k >= len(d.lists) {
+		k = len(d.lists) - 1
+	}
+	l := append([]services.ServiceInfo(nil), d.lists[k]...)
+	sym.Yield() // the round trip to the directory
+	return l, nil
+}
+
+// C19RefreshOrder: two services are registered in quick succession; the session is told twice and
+// refreshes its list: once things have settled, requests for the service registered LAST find it
+// (the list the session ends up with is the most recent one it asked for).
+func C19RefreshOrder() {
+	a := services.ServiceInfo{Name: "a", ServiceId: 2, Endpoints: []string{"tcp://a"}}
+	b := services.ServiceInfo{Name: "b", ServiceId: 3, Endpoints: []string{"tcp://b"}}
+	c := services.ServiceInfo{Name: "c", ServiceId: 4, Endpoints: []string{"tcp://c"}}
+	d := &zzGrowingDir{lists: [][]services.ServiceInfo{{a}, {a, b}, {a, b, c}}}
+	s := &Session{poll: map[string]bus.Client{}, Directory: d,
+		added: make(chan services.ServiceAdded, 4), removed: make(chan services.ServiceRemoved, 4)}
+	s.updateServiceList() // initial list: {a}
+	go s.updateLoop()
+	s.added <- services.ServiceAdded{ServiceID: 3, Name: "b"}
+	s.added <- services.ServiceAdded{ServiceID: 4, Name: "c"}
+	sym.Quiesce()
+	_, err := s.findServiceName("c")
+	sym.Assert(err == nil, "refresh-order/last-registered-service-not-found")
+	_, err = s.findServiceID(3)
+	sym.Assert(err == nil, "refresh-order/registered-service-not-found")
+	close(s.added)
+	sym.Reach("refresh-order-done")
+}
